@@ -262,7 +262,7 @@ func main() {
 	rng := vh.NewRng(a.Seed)
 	rep := vh.NewReport(a, "histories of Add/Del/Lookup/Cmd-dispatch over names from {a,b,c}^(1..3) (+\"\" and longer names); "+
 		"part 0 corpus/C37/*.json (exact histories of past findings) run first; part 1 bounded-exhaustive: every table of <=1 name, every pair of names (quick: of length <=2; thorough: all 741 pairs), sampled tables of 3..5 names, all 40 prefixes looked up before and after a deletion; "+
-		"part 2 PRNG histories; a history is non-trivial when it contains >=1 lookup with >=1 registered command sharing the first byte; distinct by SHA-256 of the op list")
+		"part 2 PRNG histories; part 3 sibling tables: a target T (abstract names and each default command of the interpreter) plus siblings derived from T by changing byte k by -1/+1 and truncating/keeping/extending (shorter/equal/longer than the looked-up prefix x sorts before/after T x prefix of T / extension of T / neither), all pairs in both insertion orders + sampled tables of 3..4, every prefix of every present name and its near misses (last byte -1/+1, +1 byte) looked up and dispatched before/after Del and re-Add; a history is non-trivial when it contains >=1 lookup with >=1 registered command sharing the first byte; distinct by SHA-256 of the op list")
 	ir = fast.New()
 	ir.Comp.Globals.Stderr = io.Discard
 	ir.Comp.Globals.Stdout = io.Discard
@@ -367,6 +367,13 @@ func main() {
 		}
 		hist = append(hist, ops)
 	}
+	// part 3: sibling tables (siblings.go), appended last so that the case numbers of parts 0..2 do not move
+	var defaultNames []string
+	for _, c := range saved {
+		defaultNames = append(defaultNames, c.Name)
+	}
+	sibHist, sibStats := siblingHistories(a.Seed, a.Thorough(), defaultNames, &nextID)
+	hist = append(hist, sibHist...)
 
 	wd := vh.NewWatchdog(rep, 180*time.Second)
 	var terms []string
@@ -393,9 +400,9 @@ func main() {
 	}
 	// second pass: the header carries the interned definitions collected while running the histories.
 	// Starting coqc costs several seconds per file on a loaded machine: thorough uses 400 histories per shard (<= 32 shards).
-	perShard := 100
+	perShard := 125 // quick: ~1000 histories in 8 shards
 	if a.Thorough() {
-		perShard = 400
+		perShard = 450
 	}
 	cw := vh.NewCases(a, "From Coq Require Import List NArith ZArith.\nFrom Verif Require Import Common.GoStr C37.Model.\nImport ListNotations.\nOpen Scope Z_scope.\n"+strings.Join(litDefs, "\n"), "case", "mismatches", perShard)
 	for _, t := range terms {
@@ -404,5 +411,6 @@ func main() {
 	cw.Close()
 	rep.Extra["exhaustive_tables_upto2"] = nExh
 	rep.Extra["corpus_histories"] = nCorpus
+	rep.Extra["sibling_histories"] = sibStats
 	rep.Write()
 }
